@@ -229,6 +229,7 @@ pub fn gen(prop: &str, tier: &str, seed: u64) -> Out {
     let mut o = Out::new();
     let mut r = Rng::new(seed ^ prop.bytes().fold(0u64, |a, b| a.wrapping_mul(131).wrapping_add(b as u64)));
     let c = cfg(tier);
+    nested_lines(prop, &mut r, &mut o);
     match prop {
         "C01" => {
             for n in all_numbers() {
@@ -290,6 +291,13 @@ pub fn gen(prop: &str, tier: &str, seed: u64) -> Out {
                     o.push(format!("numcmp {} {}", show_num(a), show_num(b)));
                     o.push(format!("spec:numcmp {} {}", show_num(a), show_num(b)));
                 } }
+            }
+            // the views of a stored number through the public casts: exact or absent, never another value
+            for n in all_numbers().iter().chain([Number::Float64(9223372036854775808.0), Number::Float64(-9223372036854775808.0), Number::Float64(18446744073709551616.0), Number::Float64(9223372036854774784.0), Number::Float64(2.0), Number::Float64(-3.0), Number::Float64(0.5), Number::UInt64(9223372036854775808), Number::UInt64(9223372036854775809)].iter()) {
+                o.push(format!("numcast {}", show_num(n)));
+                let d = hex(&Value::Number(n.clone()).to_vec());
+                for op in ["asi64", "asu64", "toi64", "tou64"] { o.push(format!("{} {}", op, d)); }
+                for op in ["asf64", "tof64", "isi64", "isu64", "isf64"] { o.push(format!("t:{} {}", op, d)); }
             }
             // ordering: all pairs of boundary numbers, neighbours of each float, random triples
             let nums = all_numbers();
@@ -1051,6 +1059,7 @@ pub fn gen(prop: &str, tier: &str, seed: u64) -> Out {
             // and the encoding of the text must answer alike (tjtext), and the model of the whole
             // function must agree with the code (t:)
             for t in ["-0", "-0 ", "-0\n", "0", "-0.0", "0.0", "0e0", "1.0", "1e2", "100", "-1", "1e400", "18446744073709551615", "9223372036854775808", "-9223372036854775808", "9007199254740993",
+                      "{\"balance\":-0}", "[-0]", "{\"a\":[-0,-0.0,0,0.0]}", "[1e2,100,1.0,1]", "{\"a\":{\"b\":-0}}",
                       "true", "true ", "false\n", "null", "null\t", "\"true\"", "\"12\"", "\"-0\"", "\"1e2\"", "\"\"", "\" \"", "[]", "{}", "[1]", "{\"a\":1}", "\n[1]", "\t{\"a\":[1,2]}"] {
                 let x = hex(t.as_bytes());
                 for opn in ["arrlen", "keys", "typeof", "asnull", "asbool", "asnum", "asstr", "asi64", "asu64", "isarr", "isobj", "tobool", "toi64", "tou64", "each", "vals", "toserde", "toserdeobj"] {
@@ -1206,6 +1215,16 @@ pub fn gen(prop: &str, tier: &str, seed: u64) -> Out {
                     o.stat("extreme:path-index");
                 }
             }
+            // the extreme indices through the parsers and the printers as well (parse, print, parse again)
+            for p in ["$[2147483647]", "$[-2147483648]", "$[last-2147483648]", "$[last - 2147483647]", "$[last+2147483647]", "$[-2147483648 to 2147483647]", "$[last-2147483648 to last+2147483647]",
+                      "$[2147483648]", "$[-2147483649]", "$[last-2147483649]", "$?(@ == -9223372036854775808)", "$?(@ == 18446744073709551615)", "$?(@ == 18446744073709551616)", "$?(@ == 1e400)"] {
+                o.push(format!("jpparse {}", hex(p.as_bytes())));
+                o.push(format!("jproundtrip {}", hex(p.as_bytes())));
+            }
+            for p in ["{2147483647}", "{-2147483648}", "{2147483648}", "{-2147483649}", "{a,-2147483648,2147483647}"] {
+                o.push(format!("kpparse {}", hex(p.as_bytes())));
+                o.push(format!("kproundtrip {}", hex(p.as_bytes())));
+            }
         }
         "C19" => {
             let fc = c.clone().finite();
@@ -1220,6 +1239,18 @@ pub fn gen(prop: &str, tier: &str, seed: u64) -> Out {
                 o.push(format!("serdecheck {}", d));
                 let j: serde_json::Value = v.clone().into();
                 o.push(format!("fromserde {}", crate::ops_serde::show_sj(&j)));
+            }
+            // JSON text input (both functions sniff): the text and the encoding of the text must convert alike
+            for t in ["{\"balance\":-0}", "[-0]", "{\"a\":[-0,-0.0,0,0.0]}", "-0", "{\"a\":{\"b\":-0}}", "{}", "[]", "{\"k\":18446744073709551615}", "{\"k\":-9223372036854775808}", "{\"k\":1e2}", "\n{\"k\":[1]}"] {
+                let x = hex(t.as_bytes());
+                for opn in ["toserde", "toserdeobj"] { o.push(format!("tjtext {} {}", opn, x)); o.push(format!("t:{} {}", opn, x)); }
+            }
+            for _ in 0..scale(tier, 200, 5000) {
+                let v = gen_value(&mut r, &fc, 0);
+                let mut t = String::new();
+                crate::gen_text::render_json(&mut r, &v, crate::gen_text::Style::Strict, &mut t);
+                let x = hex(t.trim_start_matches(' ').as_bytes());
+                for opn in ["toserde", "toserdeobj"] { o.push(format!("tjtext {} {}", opn, x)); o.push(format!("t:{} {}", opn, x)); }
             }
             // non-finite numbers are refused by the byte walker (error, not a panic)
             for b in NONFINITE_BITS { let v = Value::Array(vec![Value::Number(Number::Float64(f64::from_bits(*b)))]); o.push(format!("toserde {}", hex(&v.to_vec()))); }
@@ -1288,4 +1319,33 @@ pub fn gen(prop: &str, tier: &str, seed: u64) -> Out {
         _ => {}
     }
     o
+}
+
+/// documents nested far deeper than the random ones (33 .. 520 levels), through the recursive and
+/// the per-level code of each property's functions.  Only requests answered by the byte-level
+/// implementation model or by an oracle on the real code: the specification functions of the driver
+/// (`spec:` ops, encodeSpec) are written for proofs and take time exponential in the depth.
+fn nested_lines(prop: &str, r: &mut Rng, o: &mut Out) {
+    let depths: &[usize] = if prop == "C14" { &[10, 25, 31] } else { NEST_DEPTHS };
+    for &depth in depths {
+        let v = nested_doc(r, depth);
+        let w = nested_doc(r, depth);
+        let (d, e) = (hex(&v.to_vec()), hex(&w.to_vec()));
+        let t = show_value(&v);
+        match prop {
+            "C01" => { o.push(format!("enc {}", t)); o.push(format!("dec {}", d)); }
+            "C03" => { for op in ["tostr", "topretty"] { o.push(format!("{} {} -", op, d)); } }
+            "C04" => { o.push(format!("cmp {} {}", d, e)); o.push(format!("cmp {} {}", d, d)); o.push(format!("cmp {} {}", e, d)); }
+            "C05" => { for op in ["typeof", "keys", "vals", "arrlen"] { o.push(format!("{} {}", op, d)); } o.push(format!("getidx {} 0", d)); o.push(format!("travstr {} eq:78", d)); o.push(format!("travstr {} eq:6b", d)); }
+            "C06" => { o.push(format!("strip - {}", d)); o.push(format!("concat - {} {}", d, e)); o.push(format!("delkp - {} i0", d)); }
+            "C10" => { o.push(format!("dec {}", d)); o.push(format!("t:fromslice {}", d)); o.push(format!("dec {}", &d[..d.len() - 2])); }
+            "C12" => { o.push(format!("contains {} {}", d, d)); o.push(format!("contains {} {}", d, e)); o.push(format!("containslaws {} {} {}", d, e, d)); }
+            "C14" => { o.push(format!("cmpkey - {}", d)); o.push(format!("keyorder {} {}", d, e)); o.push(format!("keyorder {} {}", d, d)); }
+            "C17" => { o.push(format!("encinto 0102 {}", t)); }
+            "C19" => { o.push(format!("toserde {}", d)); o.push(format!("toserdeobj {}", d)); o.push(format!("serdecheck {}", d)); o.push(format!("tjtext toserde {}", hex(jsonb::to_string(&v.to_vec()).as_bytes()))); o.push(format!("tjtext toserdeobj {}", hex(jsonb::to_string(&v.to_vec()).as_bytes()))); }
+            "C08" => { for p in ["$", "$.k", "$[0]", "$[*]", "$.*", "$.k.k", "$?(exists(@.k))"] { let ph = hex(p.as_bytes()); o.push(format!("select all - {} {}", d, ph)); o.push(format!("getpath - {} {}", d, ph)); } }
+            "C11" => { o.push(format!("tj 7 toserde {}", d)); o.push(format!("tj 7 tostr {} -", d)); o.push(format!("tj 7 cmp {} {}", d, e)); o.push(format!("tj 7 contains {} {}", d, d)); o.push(format!("tj 7 strip - {}", d)); o.push(format!("tj 7 typeof {}", d)); }
+            _ => {}
+        }
+    }
 }
